@@ -15,12 +15,12 @@ def witness : List SLabel :=
   [.parser, .parser, .inputRecv,          -- first key: parsed, handed over; the goroutine now wants to post
    .parser, .parser, .parser, .parser, .parser, .parser,   -- keys two and three fill the channel
    .parser, .parser,                      -- key four: the parser is inside emit
-   .callClose, .caller 0, .caller 0, .caller 0, .caller 0, .caller 0, .caller 0,   -- Close: check, quit, flag, suspended, signal, DA1; then wait
+   .callClose, .caller 0, .caller 0, .caller 0, .caller 0, .caller 0,   -- Close: flag, quit event, suspended, signal, DA1; then wait
    .termReply]
 
 theorem reaches_stuck_state :
     (match srun s0 witness with
-     | some s => s.stuck && !s.final && s.callers == [.waitClosed] && s.ipc == .posting 1 && s.ppc == .emitting 1
+     | some s => s.stuck && !s.final && s.callers == [{ pc := .waitClosed }] && s.ipc == .posting 1 && s.ppc == .emitting 1
      | none => false) = true := by decide
 
 theorem close_never_returns :
